@@ -603,6 +603,8 @@ class SetTypeIO(GraphSONTypeIO):
     @classmethod
     def deserialize(cls, value, reader=None):
         lst = [reader.deserialize(obj) for obj in value]
+        # blobs are read as (unhashable) bytearrays: as members of a set they are kept as bytes
+        lst = [bytes(v) if isinstance(v, bytearray) else v for v in lst]
 
         s = set(lst)
         if len(s) != len(lst):
